@@ -1818,17 +1818,30 @@ func cur64(b *big.Int) types.Currency { return cur(b) }
 
 // Fanout splits spendable value into many outputs in one transaction (a payout batch: 17..300 outputs, more than one
 // byte can count), to three drawn locks in rotation. v2 when allowed and drawn, else v1.
-func (b *Builder) Fanout() bool {
+func (b *Builder) Fanout(v1Batch ...bool) bool {
 	v2 := b.v2Allowed() && (!b.v1Allowed() || rapid.Bool().Draw(b.T, "fanV2"))
 	if !v2 && !b.v1Allowed() {
 		return false
 	}
 	n := rapid.SampledFrom([]int{17, 40, 64, 100, 257, 300}).Draw(b.T, "fanN")
+	forced := len(v1Batch) > 0 && v1Batch[0] && b.v1Allowed()
+	if forced {
+		// a v1 payout batch of more than 64 outputs that the next block sweeps up again in one v1 transaction
+		v2, n = false, rapid.SampledFrom([]int{100, 257, 300}).Draw(b.T, "fanNv1")
+	}
 	picked, total, ok := b.pickInputs("fan", v2, big.NewInt(int64(2*n)), 2)
 	if !ok {
 		return false
 	}
 	locks := []Lock{b.drawLock("fanTo0", !v2), b.drawLock("fanTo1", !v2), b.drawLock("fanTo2", !v2)}
+	sweepNext := n >= 64 && (forced || rapid.Bool().Draw(b.T, "sweepNext"))
+	if sweepNext {
+		// the batch is meant to be swept up again by the next block: it goes to single-key addresses, which both
+		// transaction versions can spend at once
+		for i := range locks {
+			locks[i] = b.W.Reg(MakeLock(LockSpec{Kind: 0, K1: rapid.IntRange(0, NumKeys-1).Draw(b.T, "fanStd")}))
+		}
+	}
 	each := new(big.Int).Quo(total, big.NewInt(int64(n)))
 	outs := make([]types.SiacoinOutput, n)
 	left := new(big.Int).Set(total)
@@ -1841,7 +1854,7 @@ func (b *Builder) Fanout() bool {
 		left = new(big.Int).Sub(left, v)
 	}
 	b.label(fmt.Sprintf("fanout-%d", n))
-	if n >= 64 && rapid.Bool().Draw(b.T, "sweepNext") {
+	if sweepNext {
 		b.W.SweepNext = 1
 		if v2 {
 			b.W.SweepNext = 2
